@@ -94,7 +94,28 @@ def check(tier):
     for i in range(600 if tier == "quick" else 8000):
         e = g.num(fr) if i % 2 == 0 else g.boolean(fr)
         rprogs.append({"id": f"r{i}", "decl": True, "steps": [from_("t"), select(item(e, "v"))]})
+    # (d) null and literal folding: every logical / arithmetic / comparison / coalesce operator over operands that are
+    # literals (true, false, null, 0, 1, 2), columns and comparisons - the shapes compile-time simplification rewrites
+    a_, b_ = col("a"), col("b")
+    B = [bin_(">", a_, b_), bin_("==", a_, lit(None)), lit(True), lit(False), lit(None), un("!", bin_("<", a_, lit(2)))]
+    N = [a_, b_, lit(2), lit(0), lit(1), lit(None), bin_("+", a_, lit(1))]
+    fold = []
+    for op in ("&&", "||"):
+        fold += [bin_(op, x, y) for x in B for y in B]
+    fold += [un("!", x) for x in B]
+    for op in ("+", "-", "*", "/", "//", "%", "??", "==", "!=", "<", ">="):
+        fold += [bin_(op, x, y) for x in N for y in N]
+    fold += [un("-", x) for x in N]
+    fold += [case((c_, x), (lit(True), y)) for c_ in B for x in (a_, lit(2), lit(None)) for y in (b_, lit(0), lit(None))]
+    fold += [case((c_, x)) for c_ in B for x in (a_, lit(2), lit(None))]
+    fold += [bin_(op, bin_(op2, x, y), z) for op in ("&&", "||") for op2 in ("&&", "||") for x in B[:5] for y in (lit(True), lit(False), lit(None)) for z in (B[0], lit(None))]
+    fprogs = [{"id": f"f{i}", "decl": True, "steps": [from_("t"), select(item(e, "v"))]} for i, e in enumerate(fold)]
+    fprogs += [{"id": f"ff{i}", "decl": True, "steps": [from_("t"), filter_(e), select(item("k"))]} for i, e in enumerate(fold[:78])]
+    res3 = l1check.run(rep, "C02-fold", fprogs, dbset, {"rows", "ExecError", "Panic", "rejected-wellformed"})
     res2 = l1check.run(rep, "C02-rnd", rprogs, dbset, {"rows", "ExecError", "Panic", "rejected-wellformed"})
+    for kk in ("accepted", "rejected"):
+        res2[kk] += res3[kk]
+    rprogs = rprogs + fprogs
     # binding demonstration for the parse-tree channel: swap the operands in one observed tree
     bad = copy.deepcopy(shards[0][:50])
     for e in bad:
